@@ -290,6 +290,15 @@ func (c *fnCtx) sel(key, suf, sort string, two bool, arr, idx string) string {
 
 func (c *fnCtx) upd(key, suf, sort string, two bool, arr, idx, v string) {
 	k := key + suf
+	if r := c.root(); r.resetRecv != "" && !two && !strings.HasPrefix(key, "ghost:") {
+		// C05: remember that this field of the receiver (or of a struct nested in it by value) was assigned
+		if idx == r.resetRecv || (strings.HasPrefix(idx, "(sub_") && strings.HasSuffix(idx, " "+r.resetRecv+strings.Repeat(")", strings.Count(idx, "(")))) {
+			gk := "ghost:w:" + k
+			c.em.regKey(gk, "Int", false)
+			h := c.heapGet(gk)
+			c.heapSet(gk, c.em.define("Hw", "(Array Int Int)", "(store "+h+" 0 1)"))
+		}
+	}
 	c.em.regKey(k, sort, two)
 	h := c.heapGet(k)
 	var nt string
@@ -562,6 +571,10 @@ func (c *fnCtx) typeInv(t types.Type, v *Val) {
 	case KSlice:
 		c.em.assert(fmt.Sprintf("(and (<= 0 %s) (<= 0 %s) (<= %s %s) (<= (+ %s %s) %s) (=> (= %s 0) (= %s 0)) (<= (owner %s) %s))",
 			v.T[1], v.T[2], v.T[2], v.T[3], v.T[1], v.T[3], maxLen, v.T[0], v.T[3], v.T[0], c.heapGet("$wm")))
+		// arrays are typed: a []T and a []U with different element types never share backing memory
+		if sl, ok := t.Underlying().(*types.Slice); ok {
+			c.em.assert(fmt.Sprintf("(=> (not (= %s 0)) (= (atype %s) %d))", v.T[0], v.T[0], c.eng.elemTypeID(sl.Elem())))
+		}
 	case KPtr:
 		c.em.assert("(<= (owner " + v.T[0] + ") " + c.heapGet("$wm") + ")")
 	case KIface:
